@@ -239,6 +239,7 @@ type Request struct {
 }
 
 type Interp struct {
+	ext     map[string]func([]Value) Value // models of external functions supplied by a rule (by the callee's origin)
 	repo    *Repo
 	plugin  string
 	decls   map[*types.Func]*VFunc
@@ -267,12 +268,12 @@ type Interp struct {
 	predCalls  []predCall
 	recN       int
 	callNames  []string
-	intEq      map[string]int          // facts about symbolic integers (e.g. a type's Kind()) learnt from decisions on this path
-	intNe      map[string]map[int]bool //
+	intEq      map[string]int               // facts about symbolic integers (e.g. a type's Kind()) learnt from decisions on this path
+	intNe      map[string]map[int]bool      //
 	tupleNames map[string]map[string]string // parameter list -> literal name -> parameter that carries it
 	leafPred   map[*ast.FuncDecl]bool
 	active     map[*ast.FuncDecl][]string // type-argument identity of the active calls, per function (progress check)
-	g9mode     bool // tabulating a predicate: helper predicates are interpreted, only recursive calls are answered by the oracle
+	g9mode     bool                       // tabulating a predicate: helper predicates are interpreted, only recursive calls are answered by the oracle
 }
 
 // leafPredNames: call-free predicates that are interpreted rather than answered by the oracle (confirmed by reading: each is
@@ -1158,7 +1159,9 @@ func (in *Interp) binop(op token.Token, a, b Value, sym string) Value {
 				return VBool{Known: true, V: (xs == ys) == (op == token.EQL)}
 			}
 			// a user-chosen name (NAME hole) is a real identifier: never "_" and never empty
-			isName := func(v VStr) bool { return len(v.Parts) == 1 && v.Parts[0].Hole != nil && v.Parts[0].Hole.Kind == "NAME" }
+			isName := func(v VStr) bool {
+				return len(v.Parts) == 1 && v.Parts[0].Hole != nil && v.Parts[0].Hole.Kind == "NAME"
+			}
 			if (ok1 && (xs == "_" || xs == "") && isName(y)) || (ok2 && (ys == "_" || ys == "") && isName(x)) {
 				return VBool{Known: true, V: op == token.NEQ}
 			}
@@ -1514,6 +1517,13 @@ func (in *Interp) selectFrom(fr *Frame, base Value, sel *types.Selection, x *ast
 		}
 		return &VOpaque{Origin: origin(recv) + "." + fn.Name()}
 	case *VSpecial:
+		if b.Kind == "typesmap" && !modelledTypesMapMethods[x.Sel.Name] {
+			if fn, ok := sel.Obj().(*types.Func); ok {
+				if d, ok := in.decls[fn]; ok {
+					return &VFunc{Decl: d.Decl, Pkg: d.Pkg, Recv: b}
+				}
+			}
+		}
 		return &VSpecial{Kind: b.Kind + "." + x.Sel.Name, Name: b.Name}
 	case *VOpaque:
 		if sel.Kind() == types.FieldVal {
@@ -1620,6 +1630,11 @@ func (in *Interp) call(fr *Frame, c *ast.CallExpr) Value {
 		}
 		if iv, ok := v.(VInt); ok && iv.Known && types.ExprString(c.Fun) == "string" {
 			return lit(string(rune(iv.V)))
+		}
+		if l, ok := v.(*VList); ok && types.ExprString(c.Fun) == "string" {
+			if bs, ok := bytesOfList(l); ok {
+				return lit(bs)
+			}
 		}
 		return v
 	}
@@ -1806,7 +1821,10 @@ func (in *Interp) call(fr *Frame, c *ast.CallExpr) Value {
 				}
 			}
 			return VBool{Sym: org}
-		case "typesmap.FieldStrings":
+		case "typesmap.FieldStrings", "typesmap.StructFieldStrings":
+			if fi := in.repo.lookup("derive.(*typesMap)." + strings.TrimPrefix(f.Kind, "typesmap.")); fi != nil && fi.Decl.Body != nil {
+				return in.callFunc(&VFunc{Decl: fi.Decl, Pkg: fi.Pkg, Recv: &VSpecial{Kind: "typesmap", Name: f.Name}}, args, c.Pos())
+			}
 			l := &VList{}
 			if fl, ok := args[0].(*VList); ok {
 				// one line per field: its name and its type, as the struct would be printed
@@ -1830,6 +1848,9 @@ func (in *Interp) call(fr *Frame, c *ast.CallExpr) Value {
 		}
 		in.fail("special call %s at %v", f.Kind, fr.pkg.Fset.Position(c.Pos()))
 	case *VOpaque:
+		if m, ok := in.ext[f.Origin]; ok {
+			return m(args)
+		}
 		// stdlib models
 		switch f.Origin {
 		case "extfunc:fmt.Sprintf":
@@ -1907,9 +1928,75 @@ func (in *Interp) call(fr *Frame, c *ast.CallExpr) Value {
 				}
 			}
 			return VBool{Sym: org}
-		case "extfunc:strings.Split":
+		case "extfunc:go/format.Source":
+			// gofmt changes the white space inside lines and the alignment of columns; it neither joins nor splits the lines of a
+			// declaration whose fields are each on a line of their own (assumption, DESIGN 8.6); it fails on text that does not parse
+			var err Value = VNil{}
+			where := fmt.Sprintf("format.Source@%s", in.repo.pos(c.Pos()))
+			if in.decide("E:"+where, 2) == 1 {
+				err = VErr{where}
+			}
+			return VTuple{[]Value{asStr(args[0]), err}}
+		case "extfunc:strings.TrimPrefix", "extfunc:strings.TrimSuffix":
 			sv, ok1 := args[0].(VStr)
-			sep, ok2 := args[1].(VStr).isLit()
+			p, ok2 := asStr(args[1]).isLit()
+			if !ok1 || !ok2 {
+				break
+			}
+			if len(sv.Parts) == 0 || p == "" {
+				return sv
+			}
+			parts := append([]Part{}, sv.Parts...)
+			if f.Origin == "extfunc:strings.TrimPrefix" {
+				first := parts[0]
+				if first.Hole != nil {
+					if first.Hole.Kind == "NAME" || first.Hole.Kind == "FUNC" || first.Hole.Kind == "PKG" {
+						if !isIdentByte(p[0]) || len(p) > 0 && !isIdentStr(p) {
+							return sv
+						}
+					}
+					in.fail("strings.TrimPrefix(%s, %q): the text begins with a hole", sv.render(), p)
+				}
+				if strings.HasPrefix(first.Lit, p) {
+					parts[0] = Part{Lit: first.Lit[len(p):]}
+					return VStr{parts}
+				}
+				if len(first.Lit) >= len(p) || len(parts) == 1 {
+					return sv
+				}
+				in.fail("strings.TrimPrefix(%s, %q): undetermined", sv.render(), p)
+			}
+			last := parts[len(parts)-1]
+			if last.Hole != nil {
+				if last.Hole.Kind == "NAME" || last.Hole.Kind == "FUNC" || last.Hole.Kind == "PKG" {
+					if !isIdentStr(p) {
+						return sv
+					}
+				}
+				in.fail("strings.TrimSuffix(%s, %q): the text ends with a hole", sv.render(), p)
+			}
+			if strings.HasSuffix(last.Lit, p) {
+				parts[len(parts)-1] = Part{Lit: last.Lit[:len(last.Lit)-len(p)]}
+				return VStr{parts}
+			}
+			if len(last.Lit) >= len(p) || len(parts) == 1 {
+				return sv
+			}
+			in.fail("strings.TrimSuffix(%s, %q): undetermined", sv.render(), p)
+		case "extfunc:bytes.TrimSpace":
+			if sv, ok := asStrOK(args[0]); ok {
+				parts := append([]Part{}, sv.Parts...)
+				if len(parts) > 0 && parts[0].Hole == nil {
+					parts[0] = Part{Lit: strings.TrimLeft(parts[0].Lit, " \t\n\r")}
+				}
+				if n := len(parts); n > 0 && parts[n-1].Hole == nil {
+					parts[n-1] = Part{Lit: strings.TrimRight(parts[n-1].Lit, " \t\n\r")}
+				}
+				return VStr{parts}
+			}
+		case "extfunc:strings.Split", "extfunc:bytes.Split":
+			sv, ok1 := asStrOK(args[0])
+			sep, ok2 := asStr(args[1]).isLit()
 			if !ok1 || !ok2 || sep == "" {
 				break
 			}
@@ -2009,6 +2096,18 @@ func (in *Interp) call(fr *Frame, c *ast.CallExpr) Value {
 				return VBool{Known: true, V: token.IsExported(ls)}
 			}
 		case "extfunc:strings.ToLower", "extfunc:strings.ToUpper", "extfunc:strings.TrimSpace":
+			if sv, ok := args[0].(VStr); ok && f.Origin == "extfunc:strings.TrimSpace" {
+				if _, isLit := sv.isLit(); !isLit {
+					parts := append([]Part{}, sv.Parts...)
+					if len(parts) > 0 && parts[0].Hole == nil {
+						parts[0] = Part{Lit: strings.TrimLeft(parts[0].Lit, " \t\n\r")}
+					}
+					if n := len(parts); n > 0 && parts[n-1].Hole == nil {
+						parts[n-1] = Part{Lit: strings.TrimRight(parts[n-1].Lit, " \t\n\r")}
+					}
+					return VStr{parts}
+				}
+			}
 			if sl, ok := args[0].(VStr).isLit(); ok {
 				switch f.Origin {
 				case "extfunc:strings.ToLower":
@@ -2066,7 +2165,11 @@ func (in *Interp) typesModel(f *VOpaque, args []Value, org string, t types.Type)
 	case "extfunc:go/types.NewChan":
 		return mk("*types.Chan", map[string]Value{"Elem": args[1], "Dir": args[0]}), true
 	case "extfunc:go/types.NewStruct":
-		return mk("*types.Struct", map[string]Value{"#fields": args[0]}), true
+		at := map[string]Value{"#fields": args[0]}
+		if len(args) > 1 {
+			at["#tags"] = args[1]
+		}
+		return mk("*types.Struct", at), true
 	case "extfunc:go/types.NewTuple":
 		return mk("*types.Tuple", map[string]Value{"#elems": &VList{append([]Value{}, args...)}}), true
 	case "extfunc:go/types.NewSignature":
@@ -2134,6 +2237,24 @@ func (in *Interp) typesModel(f *VOpaque, args []Value, org string, t types.Type)
 		return r.attr(f.meth, func() Value { return &VOpaque{Origin: org} }), true
 	case "Variadic":
 		return VBool{Known: true, V: in.variadic(r)}, true
+	case "Tag":
+		// struct tags: the first field of every struct type of the abstract input space carries the tag structTag (tags are
+		// part of a struct type's identity, and nothing but a rendering of the type may depend on them); a struct built by the
+		// generator has the tags it was built with
+		i, ok := args[0].(VInt)
+		if !ok || !i.Known {
+			in.fail("Tag with an unknown index on %s", r.Origin)
+		}
+		if r.built {
+			if tl, ok := r.attrs["#tags"].(*VList); ok && i.V < len(tl.Elems) {
+				return tl.Elems[i.V], true
+			}
+			return lit(""), true
+		}
+		if i.V == 0 {
+			return lit(structTag), true
+		}
+		return lit(""), true
 	case "Len", "NumFields", "NumMethods":
 		el := in.elemsOf(r)
 		return VInt{Known: true, V: len(el.Elems)}, true
@@ -2175,6 +2296,33 @@ func (in *Interp) typeString(v Value, bypass bool) VStr {
 			return lit("[]").concat(sub("Elem"))
 		case "*types.Map":
 			return lit("map[").concat(sub("Key")).concat(lit("]")).concat(sub("Elem"))
+		case "*types.Struct":
+			// go/types prints struct{F T "tag"; G U}: a field is its name (unless embedded, which the abstract input space does
+			// not contain), its type and, if not empty, its quoted tag
+			if fl, ok := o.attrs["#fields"].(*VList); ok {
+				out := lit("struct{")
+				tags, _ := o.attrs["#tags"].(*VList)
+				for i, f := range fl.Elems {
+					fo, isO := f.(*VOpaque)
+					if !isO {
+						return hole("TYPE", origin(v))
+					}
+					if i > 0 {
+						out = out.concat(lit("; "))
+					}
+					out = out.concat(in.varName(fo)).concat(lit(" ")).concat(in.typeString(in.varType(fo), bypass))
+					if tags != nil && i < len(tags.Elems) {
+						if ts, isS := tags.Elems[i].(VStr); isS {
+							if l, isLit := ts.isLit(); !isLit {
+								out = out.concat(lit(" ")).concat(ts)
+							} else if l != "" {
+								out = out.concat(lit(" " + strconv.Quote(l)))
+							}
+						}
+					}
+				}
+				return out.concat(lit("}"))
+			}
 		case "*types.Chan":
 			pre := "chan "
 			if d, ok := o.attrs["Dir"].(VInt); ok && d.Known {
@@ -2382,7 +2530,6 @@ func (in *Interp) elemsOf(r *VOpaque) *VList {
 	}).(*VList)
 }
 
-
 func exprsStr(es []ast.Expr) string {
 	ss := []string{}
 	for _, e := range es {
@@ -2549,4 +2696,52 @@ func typeArgsKey(args []Value) (string, bool) {
 		return "", false
 	}
 	return strings.Join(ss, ","), true
+}
+
+// structTag is the tag of the first field of every struct type of the abstract input space.
+const structTag = `gdv:"1"`
+
+// modelledTypesMapMethods: the methods of derive.TypesMap that the interpreter models; every other method declared on
+// *typesMap is interpreted from its source.
+var modelledTypesMapMethods = map[string]bool{"TypeString": true, "TypeStringBypass": true, "GetFuncName": true, "Generating": true,
+	"SetFuncName": true, "Done": true, "ToGenerate": true, "IsExternal": true, "Prefix": true, "FieldStrings": true, "StructFieldStrings": true}
+
+// bytesOfList: a list of known small integers read as a byte string.
+func bytesOfList(l *VList) (string, bool) {
+	b := make([]byte, 0, len(l.Elems))
+	for _, e := range l.Elems {
+		i, ok := e.(VInt)
+		if !ok || !i.Known || i.V < 0 || i.V > 255 {
+			return "", false
+		}
+		b = append(b, byte(i.V))
+	}
+	return string(b), true
+}
+
+// asStr reads a string or a literal byte slice as text.
+func asStr(v Value) VStr {
+	s, _ := asStrOK(v)
+	return s
+}
+
+func asStrOK(v Value) (VStr, bool) {
+	switch x := v.(type) {
+	case VStr:
+		return x, true
+	case *VList:
+		if bs, ok := bytesOfList(x); ok {
+			return lit(bs), true
+		}
+	}
+	return VStr{}, false
+}
+
+func isIdentStr(s string) bool {
+	for i := 0; i < len(s); i++ {
+		if !isIdentByte(s[i]) {
+			return false
+		}
+	}
+	return len(s) > 0
 }
